@@ -34,6 +34,9 @@ import sys
 
 WIDTHS = (8, 16, 32, 64)
 
+sys.path.insert(0, os.path.dirname(os.path.abspath(__file__)))
+import int2str_literal  # noqa: E402  (second, literal reading of the convert() switch)
+
 
 class TranslateError(Exception):
     pass
@@ -1831,6 +1834,12 @@ def parse_cpp(repo, n, grouped, trees):
     if len_fn not in trees:
         raise TranslateError("%s: unknown length function" % what)
     conv = parse_convert(unit, callers["ustr"]["converter"], what, tree_leaves(trees[len_fn]["tree"]))
+    # the literal reading (statements as written, counter left to the Lean interpreter); only when the function
+    # the callers call is the one the literal reader finds, and it takes the same parameters
+    lit, why = int2str_literal.read_literal(os.path.join(repo, rel), what)
+    if lit is not None and conv["name"] != "convert":
+        lit, why = None, "the conversion function is not called convert()"
+    conv["literal"], conv["literal_why"] = lit, why
     return {"rel": rel, "conv": conv, "callers": callers, "len_fn": len_fn, "uname": uname, "nname": nname, "unit": unit}
 
 
@@ -2183,6 +2192,23 @@ def generate(repo):
             w("  str := %s" % lean_branches(h["str"]))
             w("  buf := %s" % lean_branches(h["buf"]))
             w("")
+            lit = f["conv"]["literal"]
+            if lit is None:
+                w("/-- the `convert()` switch of %s could not be read literally (%s): the trace rows stand for it -/" % (
+                    f["rel"], f["conv"]["literal_why"].replace("-/", "- /")))
+                w("def %sLiteral : Option (Nat × List Row) := none" % nm)
+            else:
+                w("/-- the `convert()` switch of %s as written: `uint8_t num_digits = %d;` and the statements of every" % (
+                    f["rel"], lit["nd_init"]))
+                w("    `case` / `default` (counter statements included, executed by the Lean interpreter) -/")
+                w("def %sLiteral : Option (Nat × List Row) := some (%d, [" % (nm, lit["nd_init"]))
+                lrows = lit["rows"]
+                for i, r in enumerate(lrows):
+                    w("    ⟨%s, [%s], %s⟩%s" % ("none" if r["label"] is None else "some %d" % r["label"],
+                                                 ", ".join(lean_op(o) for o in r["ops"]), lean_bool(r["fall"]),
+                                                 "," if i + 1 < len(lrows) else ""))
+                w("  ])")
+            w("")
             for suffix, stmt, doc in (  # obligations go to the second file
                     ("tree_ok", "%s.treeOk = true" % nm, "the decision tree returns the digit count on [0, 2^%d)" % n),
                     ("rows_ok", "%s.rowsOk = true" % nm, "every reachable case writes its digits%s back to front" % (
@@ -2194,6 +2220,13 @@ def generate(repo):
                 O.append("/-- %s (%s) -/" % (doc, f["rel"] if suffix != "dispatch_ok" else h["rel"]))
                 O.append("theorem %s_%s : %s := by decide" % (nm, suffix, stmt))
                 obligations.append("%s_%s" % (nm, suffix))
+            O.append("/-- the switch as written (case selection, fall-through and the digit counter executed by the Lean "
+                     "interpreter) writes its digits%s back to front for every reachable digit count; %s (%s) -/" % (
+                         " and group characters" if grouped else "",
+                         "read literally" if f["conv"]["literal"] is not None else "NOT available for this tree, stated for the trace rows",
+                         f["rel"]))
+            O.append("theorem %s_literal_rows_ok : (%s.withLiteral %sLiteral).rowsOk = true := by decide" % (nm, nm, nm))
+            obligations.append("%s_literal_rows_ok" % nm)
             O.append("")
     for grouped in (False, True):
         a = apis[grouped]
@@ -2227,6 +2260,21 @@ def generate(repo):
     w("  file := fun grouped bits => if grouped then groupedFile bits else plainFile bits")
     w("  api := fun grouped => if grouped then apiGrouped else apiPlain")
     w("")
+    w("def plainFileLiteral : Nat → Option (FileSpec × Dispatch)")
+    for n in WIDTHS:
+        w("  | %d => some (plain%d.withLiteral plain%dLiteral, plain%dDispatch)" % (n, n, n, n))
+    w("  | _ => none")
+    w("")
+    w("def groupedFileLiteral : Nat → Option (FileSpec × Dispatch)")
+    for n in WIDTHS:
+        w("  | %d => some (grouped%d.withLiteral grouped%dLiteral, grouped%dDispatch)" % (n, n, n, n))
+    w("  | _ => none")
+    w("")
+    w("/-- the same library with the `convert()` switches taken as written wherever they could be read literally -/")
+    w("def libLiteral : Lib where")
+    w("  file := fun grouped bits => if grouped then groupedFileLiteral bits else plainFileLiteral bits")
+    w("  api := fun grouped => if grouped then apiGrouped else apiPlain")
+    w("")
     w("end CelmaVerif.Int2Str.Gen")
     O.append("end CelmaVerif.Int2Str.Gen")
     text = ("\n".join(L) + "\n", "\n".join(O) + "\n")
@@ -2237,6 +2285,9 @@ def generate(repo):
         "negation": {("grouped" if g else "plain") + str(n): "/".join(
             (files[(g, n)]["callers"][k]["neg"] or ("none",))[0] for k in ("nstr", "nbuf")) for g in (False, True) for n in WIDTHS},
         "obligations": len(obligations),
+        "literal_switch": {("grouped" if g else "plain") + str(n): (
+            "read as written" if files[(g, n)]["conv"]["literal"] is not None
+            else "not available: " + files[(g, n)]["conv"]["literal_why"]) for g in (False, True) for n in WIDTHS},
     }
     return text, report
 
